@@ -1,5 +1,6 @@
 import NunVerif.Model.Session
 import NunVerif.Model.Oplog
+import NunVerif.Model.Repl
 /-
   Line-protocol driver: one operation per input line, canonical output lines per operation.
   The Rust harness (`nvh`) produces the same lines from the real implementation.
@@ -98,6 +99,22 @@ def evLines (evs : List Ev) : List String :=
   ++ evs.filterMap (fun e => match e with | .sup l => some s!"V {esc l}" | _ => none)
   ++ evs.filterMap (fun e => match e with | .toMember m l => some s!"L {escw m} {esc l}" | _ => none)
 
+def kvList (l : List (Bytes × Nat)) : String := ",".intercalate (l.map fun (k, i) => s!"{escw k}={i}")
+
+def dumpMeta (n : Node) (m : Meta) : List String :=
+  let recStr (f : OpFile) : String := ";".intercalate (f.map fun r => s!"{r.t},{r.k},{r.d},{r.o}")
+  let idn := n.idName.foldr (fun x acc =>
+    let rec ins : List (Nat × Bytes) → List (Nat × Bytes)
+      | [] => [x]
+      | y :: ys => if y.1 < x.1 then y :: ins ys else x :: y :: ys
+    ins acc) []
+  [s!"G keysmap {kvList m.keysMap}",
+   s!"G idname {",".intercalate (idn.map fun (i, nm) => s!"{i}={escw nm}")}",
+   s!"G valid {if m.valid then 1 else 0}",
+   s!"G flagfile {match m.flagFile with | some b => toString b | none => "-"}",
+   s!"G keysfile {match m.keysFile with | some l => kvList l | none => "-"}",
+   s!"O cur {recStr m.oplog.cur}"] ++ (m.oplog.rot.zipIdx.map fun (f, i) => s!"O rot{i} {recStr f}")
+
 def clockStart : Nat := 1000000000000000000
 
 def freshNodeAt (role : Role) (clock : Nat) : Node :=
@@ -138,6 +155,26 @@ structure World where
   notices : List (Sid × List Bytes) := []
   lastDump : List String := []
   oplog : OplogFs := {}
+  /-- pumped replication loop (C16 / cluster): metadata state and the queued replication messages -/
+  pump : Bool := false
+  mstate : Meta := {}
+  replQueue : List Bytes := []
+  /-- crash window (C16): between `MARK begin` and `MARK end` every write to the metadata files is listed -/
+  xtrace : Bool := false
+  xbase : Option (Meta × Node) := none
+  xlog : List (XOp × Node) := []
+
+def xopStr : XOp → String
+  | .flag b => s!"X flag {b}"
+  | .append r => s!"X append {r.t},{r.k},{r.d},{r.o}"
+  | .keys km => s!"X keys {kvList km}"
+  | .rmOplog => "X rmoplog"
+  | .rmKeys => "X rmkeys"
+  | .rmFlag => "X rmflag"
+
+/-- the writes of a list of machine operations from state `m` (state threaded through) -/
+def tracesOf (m : Meta) (ops : List MOp) : List XOp :=
+  (ops.foldl (fun (acc : Meta × List XOp) op => (acc.1.step op, acc.2 ++ acc.1.trace op)) (m, [])).2
 
 def recordNotices (w : World) (evs : List Ev) : World :=
   evs.foldl (fun w e => match e with
@@ -157,7 +194,8 @@ def step (w : World) (line : String) : World × List String :=
   | "RESET" =>
     let role := if a1 = b!"startingup" then Role.startingUp else if a1 = b!"secoundary" then Role.secoundary else Role.primary
     let n := freshNode role
-    ({ node := n, oplog := {} }, ["# reset"] ++ dumpNode n)
+    let pump := Bytes.contains a1 b!"pump"
+    ({ node := n, oplog := {}, pump := pump }, ["# reset"] ++ dumpNode n)
   | "SESS" =>
     match Bytes.parseNat a1 with
     | some sid =>
@@ -171,7 +209,11 @@ def step (w : World) (line : String) : World × List String :=
       let n0 := if (AL.get? w.node.sessions sid).isNone then w.node.setSession sid {} else w.node
       let (n, r, evs) := n0.exec sid (unesc a2)
       let w := recordNotices { w with node := n } evs
-      (w, respStr r :: evLines evs ++ dumpNode n)
+      if w.pump then
+        let queued := evs.filterMap fun e => match e with | .repl l => some l | _ => none
+        let shown := evs.filter fun e => match e with | .repl _ => false | _ => true
+        ({ w with replQueue := w.replQueue ++ queued }, respStr r :: evLines shown ++ dumpNode n)
+      else (w, respStr r :: evLines evs ++ dumpNode n)
     | none => (w, ["E bad-op"])
   | "RESOLVE" =>
     -- RESOLVE <sid> <i> <value>: answer the i-th notice this session received
@@ -206,6 +248,10 @@ def step (w : World) (line : String) : World × List String :=
       ({ w with node := n }, s!"H {esc reply}" :: evLines evs ++ dumpNode n)
     | none => (w, ["E bad-op"])
   | "SNAP" =>
+    let sx : List (XOp × Node) := if w.pump && !w.node.toSnapshot.isEmpty then (w.mstate.trace .snapshotKeys).map (·, w.node) else []
+    let w := if w.xtrace then { w with xlog := w.xlog ++ sx } else w
+    let sxl := if w.xtrace then sx.map (xopStr ·.1) else []
+    let w := if w.pump && !w.node.toSnapshot.isEmpty then { w with mstate := w.mstate.snapshotKeys } else w
     let n := w.node.snapshotAll (parseOrders a1)
     -- cross-check of the two formulations of the writer (final files vs. operation trace)
     let chk : List String := match (dedupConsecutive w.node.toSnapshot).reverse with
@@ -216,14 +262,52 @@ def step (w : World) (line : String) : World × List String :=
           if dumpFs viaOps == dumpFs n.fs then [] else ["E trace-mismatch"]
         | none => []
       | _ => []
-    ({ w with node := n }, chk ++ dumpFs n.fs ++ dumpNode n)
+    ({ w with node := n }, chk ++ sxl ++ (if w.pump then dumpMeta n w.mstate else []) ++ dumpFs n.fs ++ dumpNode n)
   | "RESTART" =>
+    let rx : List (XOp × Node) := if w.pump then (w.mstate.trace .restart).map (·, w.node) else []
+    let w := if w.xtrace then { w with xlog := w.xlog ++ rx } else w
+    let rxl := if w.xtrace then rx.map (xopStr ·.1) else []
     match w.node.restart (freshNodeAt w.node.role w.node.clock) with
     | some n =>
       -- the fresh node consumed two ticks before loading
-      ({ w with node := n, notices := [] }, "# restarted" :: dumpFs n.fs ++ dumpNode n)
+      let m := if w.pump then
+          let m := w.mstate.restart
+          -- the loop re-opens the oplog stream: a full current file is rotated
+          if m.oplog.cur.length * opRecSize ≥ singleLogBytes then { m with oplog := { cur := [], rot := m.oplog.cur :: m.oplog.rot } } else m
+        else w.mstate
+      let n := { n with keysMap := m.keysMap }
+      ({ w with node := n, notices := [], mstate := m, replQueue := [] }, "# restarted" :: rxl ++ (if w.pump then dumpMeta n m else []) ++ dumpFs n.fs ++ dumpNode n)
     | none => ({ w with node := { freshNodeAt w.node.role w.node.clock with fs := w.node.fs }, notices := [] }, ["R PANIC restart"])
-  | "MARK" => (w, [])
+  | "PUMP" =>
+    -- run the replication loop over everything queued
+    let (n, m, outs, dead, xs) := w.replQueue.foldl (fun (acc : Node × Meta × List String × Bool × List (XOp × Node)) line =>
+      let (n, m, outs, dead, xs) := acc
+      if dead then (n, m, outs ++ [s!"P {esc line}"], dead, xs) else
+      let xs := xs ++ (tracesOf m (n.replMOps line)).map (·, n)
+      match n.replStep m line with
+      | (n', m', .ok evs) => (n', m', outs ++ [s!"P {esc line}"] ++ evLines evs, false, xs)
+      | (n', m', .panic _) => (n', m', outs ++ [s!"P {esc line}"], true, xs)) (w.node, w.mstate, [], false, [])
+    let ps := outs.filter (·.startsWith "P ")
+    let rest := outs.filter (fun o => !o.startsWith "P ")
+    let xl := if w.xtrace then xs.map (xopStr ·.1) else []
+    ({ w with node := n, mstate := m, replQueue := [], xlog := if w.xtrace then w.xlog ++ xs else w.xlog },
+     ps ++ (if dead then ["K PANIC"] else []) ++ rest ++ xl ++ dumpMeta n m ++ dumpNode n)
+  | "MARK" =>
+    if a1 == b!"begin" then ({ w with xtrace := true, xbase := some (w.mstate, w.node), xlog := [] }, [])
+    else ({ w with xtrace := false }, [])
+  | "CRASHMETA" =>
+    -- CRASHMETA <n> : keep the first n metadata writes of the window, then start the node on those files
+    match Bytes.parseNat a1, w.xbase with
+    | some k, some (m0, n0) =>
+      let m := (w.xlog.take k).foldl (fun m x => m.applyX x.1) m0
+      let nd := match k, (w.xlog.take k).getLast? with
+        | 0, _ => n0
+        | _, some x => x.2
+        | _, none => n0
+      match nd.restart (freshNodeAt nd.role nd.clock) with
+      | some n' => (w, s!"# crash-prefix {k}" :: dumpMeta n' m.restart)
+      | none => (w, [s!"# crash-prefix {k}", "R PANIC restart"])
+    | _, _ => (w, ["E bad-op"])
   | "COPYDIR" => (w, ["# copied"])
   | "CRASHPLAN" =>
     -- the file operations of the pending snapshot (single database in the queue)
